@@ -5,6 +5,7 @@ import (
 	"encoding/hex"
 	"encoding/json"
 	"fmt"
+	"strings"
 	"testing"
 
 	"0chain.net/chaincore/node"
@@ -123,6 +124,19 @@ func TestC29_HashCommitsToContents(t *testing.T) {
 		if b.Signature, err = gs.Sign(b.Hash); err != nil {
 			t.Fatalf("VERIF-HARNESS-ERROR %v", err)
 		}
+		// what travels with a block but is not part of its contents: verification tickets of other miners over
+		// this block's hash, and the previous block's tickets
+		nt := rapid.SampledFrom([]int{0, 1, 0, 3}).Draw(t, "tickets")
+		for i := 0; i < nt; i++ {
+			v, vs := c29miner((gi + 1 + i) % 5)
+			sig, _ := vs.Sign(b.Hash)
+			b.VerificationTickets = append(b.VerificationTickets, &VerificationTicket{VerifierID: v.GetKey(), Signature: sig})
+		}
+		for i, np := 0, rapid.SampledFrom([]int{0, 0, 2}).Draw(t, "prevTickets"); i < np; i++ {
+			v, vs := c29miner((gi + i) % 5)
+			sig, _ := vs.Sign(b.PrevHash)
+			b.PrevBlockVerificationTickets = append(b.PrevBlockVerificationTickets, &VerificationTicket{VerifierID: v.GetKey(), Signature: sig})
+		}
 		wire, _ := json.Marshal(b)
 		st.Case()
 		if rb, err := c29receive(wire); err != nil {
@@ -131,7 +145,7 @@ func TestC29_HashCommitsToContents(t *testing.T) {
 			t.Fatalf("%s", vkit.Violation("C29", "hash-not-deterministic", "the hash recomputed by the receiver differs from the generator's"))
 		}
 		// ---- tampering
-		kinds := []string{"miner-other", "miner-unknown", "prev_hash", "round", "rrs", "state_changes_count", "client_state_hash", "creation_date", "signature-flip", "signature-other-miner", "hash-flip", "mb-attach-or-replace"}
+		kinds := []string{"miner-other", "miner-unknown", "prev_hash", "round", "rrs", "state_changes_count", "client_state_hash", "creation_date", "signature-flip", "signature-other-miner", "hash-flip", "mb-attach-or-replace", "hash-respell"}
 		if n >= 1 {
 			kinds = append(kinds, "txn-drop", "txn-duplicate", "txn-replace", "txn-output")
 		}
@@ -180,6 +194,26 @@ func TestC29_HashCommitsToContents(t *testing.T) {
 			i := rapid.IntRange(0, len(x)*8-1).Draw(t, "bit")
 			x[i/8] ^= 1 << uint(i%8)
 			tb.Hash = hex.EncodeToString(x)
+		case "hash-respell":
+			// the same 32 bytes spelled differently are another string, and a block is known by that string
+			rehash, effect = false, false
+			x := []byte(tb.Hash)
+			var letters []int
+			for i, c := range x {
+				if c >= 'a' && c <= 'f' {
+					letters = append(letters, i)
+				}
+			}
+			if len(letters) == 0 {
+				return
+			}
+			if rapid.Bool().Draw(t, "all") {
+				tb.Hash = strings.ToUpper(tb.Hash)
+			} else {
+				i := rapid.SampledFrom(letters).Draw(t, "letter")
+				x[i] -= 'a' - 'A'
+				tb.Hash = string(x)
+			}
 		case "txn-drop":
 			i := rapid.IntRange(0, n-1).Draw(t, "i")
 			tb.Txns = append(tb.Txns[:i:i], tb.Txns[i+1:]...)
@@ -221,6 +255,7 @@ func TestC29_HashCommitsToContents(t *testing.T) {
 			tb.Hash = tb.ComputeHash()
 		}
 		st.Class("tamper/" + kind)
+		st.Class(fmt.Sprintf("tickets_attached_%d", nt))
 		if effect || kind == "txn-duplicate" {
 			st.NonTrivial(string(wire), kind, rehash)
 		}
@@ -235,7 +270,7 @@ func TestC29_HashCommitsToContents(t *testing.T) {
 		}
 		twire, _ := json.Marshal(tb)
 		if _, err := c29receive(twire); err == nil {
-			t.Fatalf("%s", vkit.Violation("C29", "tampered-accepted:"+field, "block accepted by decode+ComputeProperties+Validate after tampering %q (hash recomputed by the attacker: %v)", kind, rehash))
+			t.Fatalf("%s", vkit.Violation("C29", "tampered-accepted:"+field, "block accepted by decode+ComputeProperties+Validate after tampering %q (hash recomputed by the attacker: %v; %d verification tickets attached)", kind, rehash, nt))
 		} else if st.WantSample(true) {
 			st.Sample(true, map[string]interface{}{"txns": n, "magic_block": b.MagicBlock != nil, "tamper": kind, "hash_recomputed": rehash, "rejected_with": err.Error()[:min(len(err.Error()), 90)]})
 		}
